@@ -25,7 +25,7 @@ MODE = {'api': 'backend', 'backend': 'opaque', 'recursive': True, 'post': 'opaqu
 MODE_EQ = dict(MODE, features=['EQUALITY_OPERATORS'])
 MODE_BF = dict(MODE, features=['BUILTIN_FUNCTIONS'])
 
-FEATURES = gen.ALL_FEATURES - {'compr', 'builtins', 'listops'}
+FEATURES = gen.ALL_FEATURES - {'compr', 'builtins', 'listops', 'ops2'}   # (ops2: native-only operators on opaque values)
 
 # Each construct placed in each context the property lists.
 EXTRA = [
